@@ -4,3 +4,4 @@ open Fzf.Props.C01
 #print axioms C01_extended_is_and_of_or
 #print axioms C01_documented_syntax
 #print axioms C01_cfgOk_of_tables
+#print axioms C01_filter_exact
